@@ -13,7 +13,9 @@ _T = "SE.Proofs.C14."
 THEOREMS = [_T + n for n in [
     "C14_lattice", "C14_inside", "C14_complete_iff", "C14_incomplete_iff", "C14_duration", "C14_cover",
     "C14_ids_distinct", "C14_rejects_nonpositive", "C14_default_hop", "C14_bound_irrelevant",
-    "C14_holds_iff", "C14_pinned_bound_loses_windows"]]
+    "C14_holds_iff", "C14_pinned_bound_loses_windows",
+    # review R-C14
+    "C14_count", "C14_bound_ge", "C14_name_injective", "C14_full"]]
 LEVEL_TEXT = ("Lean theorems over a loop-level model of segment_clip (after fix C14-1: loop bound ceil(duration/hop)), for all "
               "rational clip bounds, durations, hops and both flags: the i-th segment is the lattice window start + i*hop "
               "truncated at the clip end; the result contains exactly the windows that fit (resp. start inside the clip); "
@@ -47,6 +49,7 @@ PARENTS = ["7d2e9a4c-1111-4a6b-9c3d-000000000001", "7d2e9a4c-1111-4a6b-9c3d-0000
 _REC = None
 _CACHE = {}          # jkey(inp) -> canonical impl output (for the batched `holds` pass)
 _UUID_FAILS = []
+_FMT_FAILS = []
 
 
 def _recording():
@@ -72,12 +75,24 @@ def _call(inp, parent=PARENTS[0]):
     return clip, list(segment_clip(clip, duration=_f(inp["duration"]), include_incomplete=inp["incl"], **kw))
 
 
-def _impl_segment(inp):
+def _namespace():
     import soundevent.constants as constants
     uuid_namespace = getattr(constants, "uuid_namespace", None)     # tolerant: a renamed constant breaks the tie only
     if not isinstance(uuid_namespace, _uuid.UUID):
         cands = [v for v in vars(constants).values() if isinstance(v, _uuid.UUID)]
         uuid_namespace = cands[0] if len(cands) == 1 else None       # the package's only UUID constant, whatever its name
+    return uuid_namespace
+
+
+def _fmt_ok(x):
+    """the hypotheses of C14_name_injective about the number formatting (`fmt` of the model), on one value:
+    repr round-trips (so it is injective) and contains no ':'"""
+    r = repr(x)
+    return ":" not in r and isinstance(x, float) and float(r) == x and (x != 0 or math.copysign(1, float(r)) == math.copysign(1, x))
+
+
+def _impl_segment(inp):
+    uuid_namespace = _namespace()
     clip, segs = _call(inp)
     _clip2, segs2 = _call(inp)          # determinism = two calls
     side = {}
@@ -89,6 +104,8 @@ def _impl_segment(inp):
         side["duplicate_ids"] = True
     if any(x.recording is not clip.recording and x.recording != clip.recording for x in segs):
         side["other_recording"] = True
+    if not all(_fmt_ok(t) for x in segs for t in (x.start_time, x.end_time)):
+        side["fmt_contract"] = True
     for x in segs:
         if not isinstance(uuid_namespace, _uuid.UUID):
             side["uuid_formula"] = True
@@ -115,6 +132,14 @@ def _impl_wrapper(inp):
 def _holds_side(ctx, inp, io):
     """identifier / recording side conditions observed on the real objects"""
     side = io.pop("_side", None) if isinstance(io, dict) else None
+    if isinstance(io, dict) and io.get("val"):
+        bad = bool((side or {}).get("fmt_contract"))
+        if not bad:
+            ctx.tally("contract:float-format-injective-no-colon")
+        elif len(_FMT_FAILS) < 3:
+            _FMT_FAILS.append(inp)
+            ctx.contract("float-format-injective-no-colon", False, inp, io,
+                         "a segment bound is not a float whose repr round-trips without ':' (hypothesis of C14_name_injective)")
     if not side:
         return None
     if side.get("nondeterministic"):
@@ -385,7 +410,16 @@ def _stage_free(ctx):
     _FREE_STATS.clear()
 
 
+def _symbolic_ties(ctx):
+    """Tie 1b: the real segment_clip on symbolic numbers, the loop bound answered by an oracle (harness/c14_sym.py)"""
+    from .. import c14_sym
+    import soundevent.operations as ops
+    c14_sym.register(ctx, ops, _namespace(), _recording(), [0, 1, 2, 3, 4] if ctx.thorough() else [0, 1, 2, 3])
+
+
 def run(ctx):
+    ctx.stage("symbolic-ties", _symbolic_ties, ctx)
+    ctx.stage("discharge", ctx.discharge, ["SoundeventModel.Segment", "SoundeventModel.Tactics"])
     ctx.stage("corpus", ctx.run_corpus, OPS)
     ctx.stage("exhaustive-grid", _stage_grid, ctx)
     ctx.stage("random-dyadic", _stage_random, ctx)
